@@ -460,6 +460,7 @@ func exec(n *Nodis, conn *redis.Conn, cmd redis.Command) {
 		}
 		return true
 	})
+	verifTrace("exec-check", conn, "", nil, watchKeysNoChanged)
 	if !watchKeysNoChanged {
 		conn.WriteBulkNull()
 		return
@@ -479,6 +480,7 @@ func exec(n *Nodis, conn *redis.Conn, cmd redis.Command) {
 					return
 				}
 			}()
+			verifTrace("exec-run", conn, "", nil, true)
 			command()
 		}()
 	}
